@@ -252,7 +252,7 @@ func (c06) Gen(seed int64, tier string, emit func(any)) {
 	g := &c06Gen{r}
 	n := 1200
 	if tier == "thorough" {
-		n = 12000
+		n = 8000
 	}
 	for i := 0; i < n; i++ {
 		depth := r.Intn(7) // 0..6
